@@ -11,6 +11,8 @@ import (
 	"strings"
 
 	"bebopverif/internal/core"
+	"bebopverif/internal/geneval"
+	"bebopverif/internal/genfacts"
 	"bebopverif/internal/load"
 	"bebopverif/internal/wire"
 
@@ -31,11 +33,13 @@ func libraryPkgs(p *load.Prog) []*packages.Package {
 }
 
 func checkC14(c *core.Ctx) {
-	c.Explainf("C14 (decided clauses: the structural ways this code could be impure or order-dependent; absence of data races as such is a dynamic notion and NOT decided). R1: every `range` over a map in the non-test code of the three library packages is enumerated and its body classified — insertion into a map/set, deletion, raising a flag and `continue` are order-independent; an `append` is accepted only if the slice is sorted afterwards in the same function; a `return`/`break` that carries a value derived from the iteration variables, or an emit, makes the result depend on map iteration order. R2: no function of the library packages assigns to, deletes from, or updates through an alias a package-level variable (the type tables are read-only). R3: Generate, which receives File by value, never appends to a slice of its receiver without first clipping its capacity (otherwise it writes into the caller's backing array — the race the property describes). R3b: no function with a by-value File/record writes through a local alias of one of its exported slices — append onto a re-slice (the in-place filter `x := f.Consts[:0]`), element store, in-place sort, copy into — (positive control: fixtures/aliaswrite). R4: every pointer- or map-typed scratch field of GenerateSettings is given a fresh value in File.Generate before the first record is generated. Additionally the generator's text for one schema was folded twice by the evaluator with different map iteration orders... is NOT done: the evaluator iterates maps in sorted order, so R1 is the rule that decides order-independence.")
+	c.Explainf("C14 (decided clauses: the structural ways this code could be impure or order-dependent; absence of data races as such is a dynamic notion and NOT decided). R1: every `range` over a map in the non-test code of the three library packages is enumerated and its body classified — insertion into a map/set, deletion, raising a flag and `continue` are order-independent; an `append` is accepted only if the slice is sorted afterwards in the same function; a `return`/`break` that carries a value derived from the iteration variables, or an emit, makes the result depend on map iteration order. R2: no function of the library packages assigns to, deletes from, or updates through an alias a package-level variable (the type tables are read-only). R2c: no package-level variable holds a struct of the package whose pointer-receiver methods, reachable from the exported API, assign to receiver fields (a lazily filled cache on a shared value). R3: Generate, which receives File by value, never appends to a slice of its receiver without first clipping its capacity (otherwise it writes into the caller's backing array — the race the property describes). R3b: no function with a by-value File/record writes through a local alias of one of its exported slices — append onto a re-slice (the in-place filter `x := f.Consts[:0]`), element store, in-place sort, copy into — (positive control: fixtures/aliaswrite). R4: every pointer- or map-typed scratch field of GenerateSettings is given a fresh value in File.Generate before the first record is generated. R5: the generator is folded twice by the evaluator over the first two batches of the exploration, visiting map keys in ascending and in descending order; the emitted text must be identical.")
 	p := loadRepo(c)
 	if p == nil {
 		return
 	}
+	mapOrderFold(c, p)
+	sharedMutableGlobals(c, p)
 	nRanges := 0
 	sortsParam = makeSortsParam(p)
 	for _, pk := range libraryPkgs(p) {
@@ -504,7 +508,7 @@ func receiverAliasWrites(c *core.Ctx, p *load.Prog) {
 	}
 	hits := map[string]bool{}
 	scanAliasWrites(info, fx, func(fname, what, field string, pos token.Pos) { hits[fname] = true })
-	for _, want := range []string{"T.filterInPlace", "T.store", "T.sortInPlace", "T.appendReslice", "T.copyInto"} {
+	for _, want := range []string{"T.filterInPlace", "T.store", "T.sortInPlace", "T.appendReslice", "T.copyInto", "dedupe"} {
 		c.Check("R3b", "positive control: "+want+" is recognised", "fixtures/aliaswrite/fx.go", hits[want], "the rule no longer matches the shape it is meant to find")
 	}
 	for _, not := range []string{"T.fresh", "T.clipped", "T.readOnly"} {
@@ -529,7 +533,16 @@ func scanAliasWrites(info *types.Info, decls map[*types.Func]*ast.FuncDecl, repo
 		for i := 0; i < sig.Params().Len(); i++ {
 			add(sig.Params().At(i))
 		}
-		if len(valueVars) == 0 {
+		sliceParams := map[types.Object]bool{}
+		for i := 0; i < sig.Params().Len(); i++ {
+			if _, isSlice := sig.Params().At(i).Type().Underlying().(*types.Slice); isSlice {
+				// byte buffers are scratch space by convention (token text, wire buffers)
+				if b, isB := sig.Params().At(i).Type().Underlying().(*types.Slice).Elem().Underlying().(*types.Basic); !isB || b.Kind() != types.Uint8 {
+					sliceParams[sig.Params().At(i)] = true
+				}
+			}
+		}
+		if len(valueVars) == 0 && len(sliceParams) == 0 {
 			continue
 		}
 		// sharedField: the receiver field an expression shares storage with ("" = none)
@@ -537,6 +550,13 @@ func scanAliasWrites(info *types.Info, decls map[*types.Func]*ast.FuncDecl, repo
 		var sharedField func(e ast.Expr) string
 		sharedField = func(e ast.Expr) string {
 			switch x := ast.Unparen(e).(type) {
+			case *ast.SliceExpr:
+				// p[:k] of a slice parameter: a shorter window onto the caller's
+				// elements; appending to it overwrites them
+				if id, ok := ast.Unparen(x.X).(*ast.Ident); ok && sliceParams[info.ObjectOf(id)] && (x.High != nil || x.Low != nil) && !x.Slice3 {
+					return "the caller's slice " + id.Name
+				}
+				return sharedField(x.X)
 			case *ast.SelectorExpr:
 				if root, ok := ast.Unparen(x.X).(*ast.Ident); ok && valueVars[info.ObjectOf(root)] && x.Sel.IsExported() {
 					if _, isSlice := info.TypeOf(x).Underlying().(*types.Slice); isSlice {
@@ -545,8 +565,6 @@ func scanAliasWrites(info *types.Info, decls map[*types.Func]*ast.FuncDecl, repo
 				}
 			case *ast.Ident:
 				return alias[info.ObjectOf(x)]
-			case *ast.SliceExpr:
-				return sharedField(x.X)
 			}
 			return ""
 		}
@@ -884,4 +902,206 @@ func makeSortsParam(p *load.Prog) func(fn *types.Func, i int) bool {
 		return found
 	}
 	return func(fn *types.Func, i int) bool { return rec(fn, i, 0) }
+}
+
+
+// mapOrderFold: R5. R1 classifies every map range syntactically; a loop that
+// fills a table from a computation that reads the same table (a two-pass
+// "until it settles" over `range structs`) passes that classification and
+// still depends on the order. So the generator is also folded twice by the
+// evaluator over the first batch of the exploration (every leaf class, nested
+// structs three deep, forward references) — once visiting map keys in
+// ascending and once in descending order. The emitted text must be identical.
+func mapOrderFold(c *core.Ctx, p *load.Prog) {
+	g, err := genfacts.NewGen(p)
+	if err != nil {
+		c.Undecide("generator evaluator: %v", err)
+		return
+	}
+	shapes := g.U.Shapes(2, 0)
+	plan := g.MakePlan(shapes, 260)
+	all := geneval.AllOptions()
+	n := 0
+	for _, o := range []geneval.Options{all[0], all[len(all)-1]} {
+		for bi, recs := range plan.Batches {
+			if bi > 1 {
+				break
+			}
+			a, ga, ea := g.TextOnly(recs, o, false)
+			b, gb, eb := g.TextOnly(recs, o, true)
+			if ea != nil || eb != nil {
+				c.Undecide("map-order fold (batch %d, options %s): %v %v", bi, o, ea, eb)
+				continue
+			}
+			n++
+			same := a == b && ga == gb
+			where := ""
+			if !same {
+				la, lb := strings.Split(a, "\n"), strings.Split(b, "\n")
+				for i := 0; i < len(la) && i < len(lb); i++ {
+					if la[i] != lb[i] {
+						where = fmt.Sprintf("first difference at line %d: %q vs %q", i+1, strings.TrimSpace(la[i]), strings.TrimSpace(lb[i]))
+						break
+					}
+				}
+			}
+			c.Check("R5", fmt.Sprintf("emitted text does not depend on map iteration order (batch %d, options %s)", bi, o), "gen.go (File.Generate)", same,
+				"folding the generator over the same schemas with map keys visited in ascending and in descending order gives different text — "+where+": regenerating an unchanged schema can produce a diff")
+		}
+	}
+	c.Count("map_order_folds", n)
+	c.Floor("map_order_folds", 2)
+}
+
+
+// sharedMutableGlobals: R2c. R2 looks for writes that name a package-level
+// variable. A package-level variable that holds (a pointer to) a struct of the
+// package is shared by every call as well; if a method of that struct type
+// assigns to a field of its receiver outside of construction, concurrent calls
+// write the same memory (a lazily filled cache on a shared tree, for instance)
+// even though no statement mentions the variable.
+func sharedMutableGlobals(c *core.Ctx, p *load.Prog) {
+	n := 0
+	for _, pk := range libraryPkgs(p) {
+		decls := map[*types.Func]*ast.FuncDecl{}
+		for fn, fd := range p.AllDecls() {
+			if p.Owner(fn) == pk && fd.Body != nil {
+				decls[fn] = fd
+			}
+		}
+		n += scanSharedMutableGlobals(pk.TypesInfo, pk.Types, decls, func(v *types.Var, method string) {
+			c.Check("R2c", "package-level "+v.Name()+" is not mutated through its methods after construction", p.Pos(v.Pos()), method == "",
+				"the variable is shared by every call of the package, and "+method+" — reachable from the exported API — assigns to fields of its receiver: concurrent calls write the same memory")
+		})
+	}
+	c.Check("R2c", "no package-level value of a struct type is mutated through its methods (scan complete)", "package bebop", true, "")
+	c.Count("package_level_struct_values", n)
+	// positive control (the count on the repository is zero)
+	path := filepath.Join(c.VerifDir, "fixtures", "sharedglobal", "fx.go")
+	fset := token.NewFileSet()
+	f, err := parser.ParseFile(fset, path, nil, 0)
+	if err != nil {
+		c.Undecide("positive control fixture: %v", err)
+		return
+	}
+	info := &types.Info{Types: map[ast.Expr]types.TypeAndValue{}, Defs: map[*ast.Ident]types.Object{}, Uses: map[*ast.Ident]types.Object{}, Selections: map[*ast.SelectorExpr]*types.Selection{}}
+	tpkg, err := (&types.Config{Importer: importer.ForCompiler(fset, "source", nil)}).Check("fx", fset, []*ast.File{f}, info)
+	if err != nil {
+		c.Undecide("positive control fixture does not type-check: %v", err)
+		return
+	}
+	fx := map[*types.Func]*ast.FuncDecl{}
+	for _, d := range f.Decls {
+		if fd, ok := d.(*ast.FuncDecl); ok && fd.Body != nil {
+			fx[info.Defs[fd.Name].(*types.Func)] = fd
+		}
+	}
+	hits := map[string]string{}
+	scanSharedMutableGlobals(info, tpkg, fx, func(v *types.Var, method string) { hits[v.Name()] = method })
+	c.Check("R2c", "positive control: a lazily filled cache on a shared tree is recognised", "fixtures/sharedglobal/fx.go", hits["sharedTree"] != "", "the rule no longer matches the shape it is meant to find")
+	c.Check("R2c", "positive control: a shared value that is only read is not reported", "fixtures/sharedglobal/fx.go", hits["readOnlyTable"] == "", "")
+}
+
+// scanSharedMutableGlobals reports, for every package-level variable holding
+// (a pointer to) a struct type of the package, the name of a pointer-receiver
+// method of that type that assigns to receiver fields and is reachable from an
+// exported function ("" when there is none). Returns the number of variables.
+func scanSharedMutableGlobals(info *types.Info, tpkg *types.Package, decls map[*types.Func]*ast.FuncDecl, report func(v *types.Var, method string)) int {
+	n := 0
+	scope := tpkg.Scope()
+	for _, nm := range scope.Names() {
+		v, ok := scope.Lookup(nm).(*types.Var)
+		if !ok {
+			continue
+		}
+		t := v.Type()
+		if pt, isP := t.(*types.Pointer); isP {
+			t = pt.Elem()
+		}
+		named, isN := t.(*types.Named)
+		if !isN || named.Obj().Pkg() != tpkg {
+			continue
+		}
+		if _, isStruct := named.Underlying().(*types.Struct); !isStruct {
+			continue
+		}
+		n++
+		bad := ""
+		for fn, fd := range decls {
+			if fd.Recv == nil || len(fd.Recv.List) != 1 || len(fd.Recv.List[0].Names) != 1 {
+				continue
+			}
+			rt := info.TypeOf(fd.Recv.List[0].Type)
+			prt, isP := rt.(*types.Pointer)
+			if !isP || prt.Elem() != types.Type(named) {
+				continue // value receiver: writes go to a copy
+			}
+			recv := info.ObjectOf(fd.Recv.List[0].Names[0])
+			writes := false
+			ast.Inspect(fd.Body, func(k ast.Node) bool {
+				as, isA := k.(*ast.AssignStmt)
+				if !isA {
+					return true
+				}
+				for _, l := range as.Lhs {
+					e := ast.Unparen(l)
+					for {
+						if ix, isIx := e.(*ast.IndexExpr); isIx {
+							e = ast.Unparen(ix.X)
+							continue
+						}
+						break
+					}
+					if sel, isSel := e.(*ast.SelectorExpr); isSel {
+						if id, isId := ast.Unparen(sel.X).(*ast.Ident); isId && info.ObjectOf(id) == recv {
+							writes = true
+						}
+					}
+				}
+				return true
+			})
+			if writes && reachableFromEntry(info, tpkg, decls, fn) {
+				if name := load.FuncName(fn); bad == "" || name < bad {
+					bad = name
+				}
+			}
+		}
+		report(v, bad)
+	}
+	return n
+}
+
+// reachableFromEntry: is fn called, transitively and by static calls, from an
+// exported function or method of the package that is not a constructor of the
+// shared value? (exported API = ReadFile, Format, Validate, Generate, …)
+func reachableFromEntry(info *types.Info, tpkg *types.Package, decls map[*types.Func]*ast.FuncDecl, target *types.Func) bool {
+	callers := map[*types.Func][]*types.Func{}
+	for fn, fd := range decls {
+		fn := fn
+		ast.Inspect(fd.Body, func(n ast.Node) bool {
+			if call, ok := n.(*ast.CallExpr); ok {
+				if cal := load.Callee(info, call); cal != nil && cal.Pkg() == tpkg {
+					callers[cal] = append(callers[cal], fn)
+				}
+			}
+			return true
+		})
+	}
+	seen := map[*types.Func]bool{target: true}
+	work := []*types.Func{target}
+	for len(work) > 0 {
+		f := work[0]
+		work = work[1:]
+		for _, cl := range callers[f] {
+			if seen[cl] {
+				continue
+			}
+			seen[cl] = true
+			if cl.Exported() {
+				return true
+			}
+			work = append(work, cl)
+		}
+	}
+	return false
 }
